@@ -225,6 +225,13 @@ func f8contexts() []f8ctx {
 			// the post clause is an arbitrary expression whose value is dropped every iteration
 			return []*N{For3(Var("i", Int(0)), Bin("<", Id("i"), Int(2)), Expr(lead(h())), emitE(Id("i")), Inc("i", "++"))}
 		}},
+		{"for3-init", nil, func(h func() *N) []*N {
+			// the init clause is an arbitrary expression whose value is dropped
+			return []*N{Var("i", Int(0)), For3(Expr(lead(h())), Bin("<", Id("i"), Int(2)), Inc("i", "++"), emitE(Id("i")))}
+		}},
+		{"for3-init-inside-range-loop", nil, func(h func() *N) []*N {
+			return []*N{ForRangeKV("_", "v", List(Int(4), Int(5)), Var("i", Int(0)), For3(Expr(lead(h())), Bin("<", Id("i"), Int(1)), Inc("i", "++"), emitE(Id("i"))), emitE(Id("v")))}
+		}},
 		{"for3-post-in-function", nil, func(h func() *N) []*N {
 			return []*N{FuncDecl("f", nil, Var("s", Int(0)), For3(Var("i", Int(0)), Bin("<", Id("i"), Int(3)), Expr(lead(h())), Assign(Id("s"), "+=", Id("i")), Inc("i", "++")), Return(Id("s"))), Expr(Bin("+", callE("f"), callE("f")))}
 		}},
@@ -272,6 +279,16 @@ func f8contexts() []f8ctx {
 		}},
 		{"pipe-source", nil, func(h func() *N) []*N { return ex(Pipe(lead(h()), Id("inc"), Id("inc"))) }},
 		{"pipe-arg", nil, func(h func() *N) []*N { return ex(Pipe(tk(7), Call(Id("add"), h()))) }},
+		// a stage that is not a call but an expression yielding the function: calls inside it are ordinary calls
+		{"pipe-stage-index", nil, func(h func() *N) []*N {
+			return ex(Pipe(tk(7), Index(List(Id("same"), Id("inc")), operand(h()))))
+		}},
+		{"pipe-stage-ternary-condition", nil, func(h func() *N) []*N {
+			return ex(Pipe(tk(7), Group(Tern(Bin(">", h(), Int(0)), Id("inc"), Id("same"))), Id("inc")))
+		}},
+		{"pipe-stage-list-element", nil, func(h func() *N) []*N {
+			return ex(Pipe(tk(7), Index(List(Id("same"), Id("inc")), Int(1)), Index(List(Id("inc")), Bin("-", h(), Int(1)))))
+		}},
 		{"multi-var", []string{"p", "q"}, func(h func() *N) []*N {
 			return []*N{MultiVar([]string{"p", "q"}, List(h(), tk(8))), Expr(List(Id("p"), Id("q")))}
 		}},
